@@ -237,7 +237,10 @@ def _json_default(o: Any):
 
 def write_evidence(prop: str, payload: dict) -> None:
     d = VERIF_DIR / "evidence"
-    d.mkdir(exist_ok=True)
+    if os.environ.get("VF_KEEP_EVIDENCE"):
+        # runs against scratch copies of the repository (seeded changes) must not replace the evidence of /repo
+        d = Path(os.environ.get("VF_SCRATCH", "/tmp")) / "evidence"
+    d.mkdir(parents=True, exist_ok=True)
     tmp = d / f".{prop}.json.tmp"
     tmp.write_text(json.dumps(payload, indent=1, sort_keys=True, default=_json_default))
     tmp.replace(d / f"{prop}.json")
